@@ -20,7 +20,12 @@ type ProgGen struct {
 	// Comments allows comments between tokens (dropped by the pretty printer, so C38 switches them off
 	// only for text comparison, not for the AST round trip).
 	Comments bool
-	n        int
+	// Clean avoids the constructs whose print/parse round trip is known to fail on the pinned tree
+	// (nested move/destroy/attach operands, member access on integer literals, empty else blocks,
+	// `transaction()`, empty entitlement mappings, statements that start with a prefix operator).
+	// The C38 harness exercises those constructs from its fixed corpus instead.
+	Clean bool
+	n     int
 }
 
 func NewProgGen(r *Rng) *ProgGen {
@@ -315,6 +320,10 @@ func (g *ProgGen) Primary(d int) string {
 		g.form("expr:type-invocation")
 		return "Type<" + g.TypeAnn(2) + ">()"
 	case 17:
+		if g.Clean {
+			g.form("expr:identifier")
+			return g.ident()
+		}
 		g.form("expr:attach")
 		return "attach " + g.nominal() + g.args(d-1) + " to " + g.Postfix(d-1)
 	case 18:
@@ -333,8 +342,15 @@ func (g *ProgGen) Primary(d int) string {
 func (g *ProgGen) Postfix(d int) string {
 	e := g.Primary(d)
 	n := g.R.Intn(4)
+	if g.Clean && strings.HasPrefix(e, "-") {
+		n = 0 // no postfix operator on a negative literal
+	}
 	for i := 0; i < n; i++ {
-		switch g.R.Intn(6) {
+		k := g.R.Intn(6)
+		if g.Clean && k <= 2 && len(e) > 0 && e[len(e)-1] >= '0' && e[len(e)-1] <= '9' && !strings.ContainsAny(e, ".)]\"") {
+			k = 3 + g.R.Intn(3) // no member access directly on an integer literal
+		}
+		switch k {
 		case 0, 1:
 			g.form("expr:member")
 			e += "." + g.ident()
@@ -357,7 +373,11 @@ func (g *ProgGen) Postfix(d int) string {
 
 func (g *ProgGen) Unary(d int) string {
 	if d > 0 {
-		switch g.R.Intn(12) {
+		k := g.R.Intn(12)
+		if g.Clean && (k == 2 || k == 5) {
+			k = 0
+		}
+		switch k {
 		case 0:
 			g.form("expr:unary-minus")
 			return "-" + g.Unary(d-1)
@@ -381,7 +401,11 @@ func (g *ProgGen) Unary(d int) string {
 			return "destroy " + g.Unary(d-1)
 		case 6:
 			g.form("expr:unary-on-parenthesized-binary")
-			return Pick(g.R, []string{"-", "!", "*", "<-"}) + "(" + g.Binary(d-1, 2) + ")"
+			ops := []string{"-", "!", "*", "<-"}
+			if g.Clean {
+				ops = ops[:3]
+			}
+			return Pick(g.R, ops) + "(" + g.Binary(d-1, 2) + ")"
 		}
 	}
 	return g.Postfix(d)
@@ -469,6 +493,9 @@ func (g *ProgGen) condition(d int) string {
 		return "emit " + g.typeName() + g.args(d)
 	}
 	c := g.Expr(d)
+	if g.Clean {
+		c = g.ident() + " " + Pick(g.R, binOps) + " " + c
+	}
 	if g.R.Chance(1, 2) {
 		g.form("condition:message")
 		c += ": " + g.StringLit(0)
@@ -569,6 +596,28 @@ func (g *ProgGen) optionalBinding(d int) string {
 	return s + " " + Pick(g.R, []string{"=", "<-"}) + " " + g.Expr(d)
 }
 
+// target is the leading expression of an expression / assignment / swap statement. In Clean mode it
+// starts with an identifier (a statement starting with `-`, `*`, `/`, `&`, `(`, `[` would be glued to the
+// previous statement by the printer, see the C38 known findings).
+func (g *ProgGen) target(d int) string {
+	if !g.Clean {
+		return g.Postfix(d)
+	}
+	e := g.ident()
+	n := g.R.Intn(3)
+	for i := 0; i < n; i++ {
+		switch g.R.Intn(4) {
+		case 0, 1:
+			e += "." + g.ident()
+		case 2:
+			e += "[" + g.Expr(d-1) + "]"
+		default:
+			e += "?." + g.ident()
+		}
+	}
+	return e
+}
+
 func (g *ProgGen) Stmt(d int) string {
 	k := g.R.Intn(24)
 	if d <= 0 && k >= 12 {
@@ -579,13 +628,13 @@ func (g *ProgGen) Stmt(d int) string {
 		return g.varDecl(d, false)
 	case 2, 3:
 		g.form("stmt:expression")
-		return g.Postfix(d) + g.args(d-1)
+		return g.target(d) + g.args(d-1)
 	case 4:
 		g.form("stmt:assignment")
-		return g.Postfix(d) + " " + g.transfer() + " " + g.Expr(d)
+		return g.target(d) + " " + g.transfer() + " " + g.Expr(d)
 	case 5:
 		g.form("stmt:swap")
-		return g.Postfix(d) + " <-> " + g.Postfix(d)
+		return g.target(d) + " <-> " + g.Postfix(d)
 	case 6:
 		g.form("stmt:return")
 		if g.R.Chance(1, 3) {
@@ -622,7 +671,11 @@ func (g *ProgGen) Stmt(d int) string {
 		}
 		if g.R.Chance(1, 2) {
 			g.form("stmt:else")
-			s += " else " + g.block(d-1)
+			if g.Clean {
+				s += " else {\n    " + g.ident() + "()\n" + g.stmts(d-1, 2) + "}"
+			} else {
+				s += " else " + g.block(d-1)
+			}
 		}
 		return s
 	case 14:
@@ -670,6 +723,19 @@ func (g *ProgGen) Stmt(d int) string {
 	case 22:
 		g.form("stmt:nil-coalescing-chain")
 		return "let " + g.ident() + " = " + g.Postfix(d-1) + " ?? " + g.Postfix(d-1) + " ?? " + g.Postfix(d-1)
+	case 23:
+		if g.Clean {
+			g.form("stmt:top-level-move-attach-create")
+			switch g.R.Intn(3) {
+			case 0:
+				return "let " + g.ident() + " <- " + g.target(d) + "(<-" + g.ident() + ")"
+			case 1:
+				return "let " + g.ident() + " <- attach " + g.nominal() + g.args(0) + " to " + g.ident()
+			default:
+				return "return <-create " + g.nominal() + g.args(d-1)
+			}
+		}
+		fallthrough
 	default:
 		g.form("stmt:casting-chain")
 		return "let " + g.ident() + " = (" + g.Postfix(d-1) + " as! " + g.Type(1) + ")?." + g.ident() + " as? " + g.Type(1)
@@ -840,6 +906,9 @@ func (g *ProgGen) entitlement() string {
 	var b strings.Builder
 	b.WriteString(g.optAccess() + "entitlement mapping " + Pick(g.R, []string{"M", "Map"}) + " {\n")
 	n := g.R.Intn(4)
+	if g.Clean && n == 0 {
+		n = 1
+	}
 	for i := 0; i < n; i++ {
 		if g.R.Chance(1, 4) {
 			g.form("decl:entitlement-mapping-include")
@@ -890,7 +959,11 @@ func (g *ProgGen) transaction(d int) string {
 	var b strings.Builder
 	b.WriteString("transaction")
 	if g.R.Bool() {
-		b.WriteString(g.params(1, false))
+		ps := g.params(1, false)
+		if g.Clean && ps == "()" {
+			ps = "(a: Int)"
+		}
+		b.WriteString(ps)
 	}
 	b.WriteString(" {\n")
 	n := g.R.Intn(3)
